@@ -36,25 +36,9 @@ def transform_spec(spec, k, T):
     return s
 
 
-def run_case(ctx, i, rng):
-    k = ["se2", "se3", "r2", "r3"][i % 4]
-    K = 1 + (i // 4) % 5
-    n = int(rng.integers(3, 21 if ctx.tier == "thorough" else 13))
-    straight = bool(rng.random() < 0.25)
-    if straight:
-        n = min(n, 6)
-        ctx.count("class:straight_line_initial_guess(exact zero headings)")
-    spec = gen.trajectory_graph(rng, k, n, n_loops=int(rng.integers(0, n // 2 + 1)), n_lm=int(rng.integers(0, 3)), meas_t=0.03, meas_r=0.01,
-                                init_t=float(rng.uniform(0.01, 0.15)), init_r=float(rng.uniform(0.005, 0.08)), cond=float(10 ** rng.uniform(0, 3)), cross=True,
-                                straight_init=straight, step=(0.3 if straight else 1.0))
-    maxexp = 4.0 if ctx.tier == "quick" else 6.0
-    T, tl = gen.pose(rng, k, maxexp)
-    T = gen.normalize_pose(k, T)
-    if k == "se2":
-        T[2] = R.val(R.wrap(T[2]))
-    for lab in tl:
-        if lab in ("q:near180", "q:wzero", "q:axis180", "a:nearpi_in", "a:nearpi_out", "a:exact"):
-            ctx.count("class:T:near180_or_pi")
+def frame_check(ctx, spec, k, T, K, tl=(), where="generated", cond_max=1e8):
+    """Compare G with T.G: chi2 and the state after K iterations.  Returns (moved, c0, c1, cond, worst, tol) or None."""
+    n = len(spec["vertices"])
     spec_t = transform_spec(spec, k, T)
     g, gt = M.build(spec), M.build(spec_t)
     case = {"graph": {kk: v for kk, v in spec.items() if kk != "truth"}, "T": T, "kind": k, "K": K}
@@ -83,8 +67,8 @@ def run_case(ctx, i, rng):
     free = M.free_mask(g, nn, idx)
     free[:R.CD[k]] = False
     dx, cond = M.reduced_step(H, b, free)
-    if dx is None or cond > 1e8:
-        raise Skip("cond(H) > 1e8")
+    if dx is None or cond > cond_max:
+        raise Skip("cond(H) > %.0e" % cond_max)
     try:
         M.quiet_optimize(g, max_iter=K, tol=0.0)
         M.quiet_optimize(gt, max_iter=K, tol=0.0)
@@ -116,6 +100,33 @@ def run_case(ctx, i, rng):
         moved = max(moved, d0[0], d0[1])
     ctx.margin("trajectory-commutes-with-frame-change", worst / tol)
     ctx.check("trajectory-commutes-with-frame-change", worst <= tol, dict(feats, K=K), {"worst": worst, "tol": tol, "cond": cond, "T": T}, case)
+    return moved, c0, c1, cond, worst, tol
+
+
+def run_case(ctx, i, rng):
+    k = ["se2", "se3", "r2", "r3"][i % 4]
+    K = 1 + (i // 4) % 5
+    n = int(rng.integers(3, 21 if ctx.tier == "thorough" else 13))
+    straight = bool(rng.random() < 0.25)
+    if straight:
+        n = min(n, 6)
+        ctx.count("class:straight_line_initial_guess(exact zero headings)")
+    spec = gen.trajectory_graph(rng, k, n, n_loops=int(rng.integers(0, n // 2 + 1)), n_lm=int(rng.integers(0, 3)), meas_t=0.03, meas_r=0.01,
+                                init_t=float(rng.uniform(0.01, 0.15)), init_r=float(rng.uniform(0.005, 0.08)), cond=float(10 ** rng.uniform(0, 3)), cross=True,
+                                straight_init=straight, step=(0.3 if straight else 1.0))
+    maxexp = 4.0 if ctx.tier == "quick" else 6.0
+    T, tl = gen.pose(rng, k, maxexp)
+    T = gen.normalize_pose(k, T)
+    if k == "se2":
+        T[2] = R.val(R.wrap(T[2]))
+    for lab in tl:
+        if lab in ("q:near180", "q:wzero", "q:axis180", "a:nearpi_in", "a:nearpi_out", "a:exact"):
+            ctx.count("class:T:near180_or_pi")
+    res = frame_check(ctx, spec, k, T, K)
+    if res is None:
+        return
+    moved, c0, c1, cond, worst, tol = res
+    tmagT = R.tmag(k, T)
     rot_ok = True
     if k == "se2":
         rot_ok = abs(T[2]) > 1e-9
@@ -124,3 +135,29 @@ def run_case(ctx, i, rng):
     if tmagT > 0 and rot_ok and moved > 1e-6:
         ctx.nontrivial(gen.fingerprint({"spec": spec, "T": T, "K": K}))
     ctx.sample({"kind": k, "K": K, "T": T, "poses": n, "edges": len(spec["edges"]), "chi2": [c0, c1], "cond": cond, "worst_pose_difference": worst, "tolerance": tol}, cap=3)
+
+
+def _dataset_case(name, nmax):
+    def f(ctx):
+        from .. import datasets
+
+        if not datasets.available(name):
+            ctx.skip("dataset file missing: " + name)
+            return
+        rng = np.random.default_rng([7, nmax])
+        k = "se2" if name == "intel" else "se3"
+        spec = datasets.augment_with_landmarks(rng, datasets.load_spec(name, nmax), 10)
+        for K in (1, 2):
+            T = gen.normalize_pose(k, gen.pose(rng, k, 4.0)[0])
+            if k == "se2":
+                T[2] = R.val(R.wrap(T[2]))
+            try:
+                frame_check(ctx, spec, k, T, K, where="dataset:" + name, cond_max=1e13)
+            except Skip as sk:
+                ctx.skip("dataset %s: %s" % (name, sk.reason))
+        ctx.count("dataset:" + name)
+        ctx.nontrivial("dataset-%s-%d" % (name, nmax))
+    return f
+
+
+DATASET_CASES = [_dataset_case("intel", 150), _dataset_case("garage", 120), _dataset_case("intel", 40), _dataset_case("garage", 40)]
